@@ -235,6 +235,9 @@ def main(argv=None):
             seen_sig.add(sig)
             rp = replay_native(prop_id, rec)
             rec["replay_result"] = rp
+            if rp.get("witness_found"):
+                rec["witness_from_model"] = rec["witness"]
+                rec["witness"] = rp["witness_found"]
             h = hashlib.sha256(json.dumps(rec, sort_keys=True, default=str).encode()).hexdigest()[:12]
             path = os.path.join(VERIF, "replays", "%s-%s.json" % (prop_id, h))
             json.dump(rec, open(path, "w"), indent=1, default=str)
